@@ -4,6 +4,7 @@ import PV.Src.Lang
 import PV.Model.Labels
 import PV.Model.AllocCheck
 import PV.Model.Regions
+import PV.Model.Flatten
 /-! Driver commands that execute programs: `run-ic10`, `run-src`, `equiv`. -/
 namespace PV.DriverRun
 open Lean PV.IC10 PV.IC10.Parse
@@ -525,5 +526,51 @@ def runRegions (j : Json) : Except String Json := do
       ("illegal_entries", Json.arr (acc.reverse.map (fun (a, b, t) => Json.arr #[Json.num (JsonNumber.fromNat a), Json.num (JsonNumber.fromNat b), Json.num (JsonNumber.fromNat t)])).toArray),
       ("effects_after_first", Json.num (JsonNumber.fromNat (match firstBad with | some (_, _, t) => s.trace.length - t | none => 0))),
       ("lines", Json.num (JsonNumber.fromNat pp.prog.length))])
+
+/-! ### C01 core: the model generator vs the real pre-allocation code -/
+
+/-- the flattened program under the core reference semantics against the source under `PV.Src` on one environment:
+    the unproved step (`flatten`) is compared executably; prefix rule when either side runs out of fuel -/
+def flatAgrees (prog : Program Float) (core : PV.Core.Stmt Float) (seed fuel : Nat) (pool : Array Float) : String :=
+  let env := envF seed pool
+  let (st, r) := runProgram FloatSem.sem env prog fuel 0.0
+  let ts := st.trace.reverse
+  let (tc, cdone) := match PV.Core.exec FloatSem.sem env fuel core ⟨fun _ => 0.0, []⟩ with
+    | .done s => (s.trace.reverse, true)
+    | .timeout s => (s.trace.reverse, false)
+  let cp := commonPrefix ts tc
+  let sdone := match r with | .ok _ => true | .error _ => false
+  if cp < min ts.length tc.length then s!"flatten-trace-mismatch at {cp}"
+  else if sdone && cdone && ts.length != tc.length then "flatten-length-mismatch"
+  else if sdone && !cdone && tc.length > ts.length then "flatten-extra-effects"
+  else if cdone && !sdone && ts.length > tc.length then "flatten-missing-effects"
+  else "ok"
+
+/-- is the real code (text with virtual registers and labels) instruction for instruction `comp (flatten src)`? -/
+def coreCompare (j : Json) : Except String Json := do
+  let prog ← progOfJson (← j.getObjVal? "prog")
+  let text ← j.getObjValAs? String "text"
+  match PV.Flatten.flatten (0.0 : Float) 1.0 (fun v => -v) (fun v => v == 1.0) (fun v => v == 0.0) prog with
+  | none => pure (Json.mkObj [("verdict", Json.str "outside-core")])
+  | some core =>
+    if !PV.Core.pairsOk PV.Flatten.branchPairs core then pure (Json.mkObj [("verdict", Json.str "negok-false")]) else
+    let flat : String := match j.getObjValAs? Nat "seed", j.getObjValAs? Nat "fuel", (j.getObjVal? "pool").bind poolOf with
+      | .ok seed, .ok fuel, .ok pool => flatAgrees prog core seed fuel pool
+      | _, _, _ => "not-run"
+    if flat != "ok" && flat != "not-run" then pure (Json.mkObj [("verdict", Json.str "flatten-disagrees"), ("detail", Json.str flat)]) else
+    let model := PV.Core.comp (fun n => Float.ofNat n) core 0
+    match parseProgram text with
+    | .error e => pure (Json.mkObj [("verdict", Json.str "parse-error"), ("detail", Json.str e)])
+    | .ok pp =>
+      let a := PV.Flatten.canon model
+      let b := PV.Flatten.canon pp.prog
+      if a.length != b.length then
+        pure (Json.mkObj [("verdict", Json.str "length"), ("model", Json.num (JsonNumber.fromNat a.length)), ("real", Json.num (JsonNumber.fromNat b.length)),
+          ("model_code", Json.arr (a.map Json.str).toArray), ("real_code", Json.arr (b.map Json.str).toArray)])
+      else
+        match (a.zip b).zipIdx.find? (fun ((x, y), _) => x != y) with
+        | some ((x, y), i) => pure (Json.mkObj [("verdict", Json.str "differ"), ("line", Json.num (JsonNumber.fromNat i)), ("model", Json.str x), ("real", Json.str y),
+            ("model_code", Json.arr (a.map Json.str).toArray), ("real_code", Json.arr (b.map Json.str).toArray)])
+        | none => pure (Json.mkObj [("verdict", Json.str "same"), ("lines", Json.num (JsonNumber.fromNat a.length)), ("flatten", Json.str flat)])
 
 end PV.DriverRun
